@@ -439,7 +439,21 @@ def classify(got, allowed, all_values):
                 for path, val in _leaves(a):
                     want.setdefault(path, set()).add(val)
             have = dict(_leaves(got))
-            if all(have.get(path) in vals for path, vals in want.items()):
+            # every key that a latest publisher published carries a latest
+            # publisher's value; with a single latest publisher none of its
+            # keys is missing either (several concurrent ones: the engine
+            # combines them, no key set is prescribed)
+            ok = all(val in want[path] for path, val in have.items()
+                     if path in want)
+            if len(ad) == 1:
+                ok = ok and _leaves(ad[0]) <= _leaves(got)
+            elif len(allowed) > 1:
+                # concurrent publishers of one variable: a declared
+                # conflict, the statement singles out no winner - also not
+                # between their nested keys and what each branch still
+                # carried of an older dictionary
+                ok = True
+            if ok:
                 return 'keys-of-older-dict-survive-join'
             return 'stale-nested-value'
     if got in all_values:
